@@ -167,7 +167,6 @@ def c16_quick(seed):
     # whole-item convention: the seed picks which three operations the quick tier decides
     ops = [(seed + i) % 7 for i in (0, 2, 4)]
     jobs += [c16_job("whole", op) for op in sorted(set(ops + [2]))]
-    jobs.append(c16_job("pairs", 4, pops=2, timeout=1200))
     jobs.append(Job("deque", "c16::c16_push_not_greater_panics_pairs", kind="must_panic", note="assertion failed: self.marker.cmp", timeout=300, mem_gb=4,
                     bounds="pairs: every live item not greater than the last must panic"))
     jobs.append(Job("deque", "c16::c16_push_not_greater_panics_whole", kind="must_panic", note="assertion failed: self.marker.cmp", timeout=300, mem_gb=4,
@@ -252,4 +251,45 @@ reg(Prop(
     outside=["N > 3 pairs; pair counts above i32::MAX (needs a 2^31-element slice)", "value lengths > 2 in the layout harness (lengths are unbounded in the rejection harness)",
              "sinks other than the harness array sink in this tier (OwningIovec / hcobs::Encoder sinks are exercised by C03/C01 harness families)",
              "nested messages and Cow values (thorough extensions, when present in the job list)"],
+))
+
+
+# ---------------------------------------------------------------------------
+# C17 — ByteArena::read_n under I/O faults
+
+ARENA8 = dict(cfgs=("woodpile_verif", "woodpile_verif_arena"), env={"WOODPILE_VERIF_ARENA_CHUNK": "8,0"})
+C17_COVERS = ["all attempts interrupted", "Interrupted then EOF: empty success", "hard error after data is a success",
+              "filled through short reads", "attempt budget exhausted with a short result"]
+
+
+def c17_job(count, state, witness=False, quick=False):
+    name = "c17::c17_%sread_n_c%d_%s%s" % ("q_" if quick else "", count, state, "_witness" if witness else "")
+    if count == 0:
+        allowed = set(C17_COVERS)
+    elif count < 3:
+        allowed = {"filled through short reads"}
+    else:
+        allowed = set()
+    if count == 1:
+        allowed.add("attempt budget exhausted with a short result")
+    n = 3 if quick else 4
+    return Job("arena", name, unwind_fns={r"ByteArena::read_n_impl": n + 1}, timeout=900, mem_gb=8, covers=allowed,
+               kind="witness" if witness else "proof",
+               bounds="count=%d, arena %s, symbolic reader script of <=%d actions over {deliver 1..3, Interrupted, EOF, hard error}, symbolic max_attempts 1..%d, 8-byte arena chunks" % (count, state, n, n),
+               **ARENA8)
+
+
+reg(Prop(
+    "C17", "read_n under I/O faults",
+    quick=[c17_job(4, "fresh"), c17_job(3, "fresh"), c17_job(1, "fresh"), c17_job(0, "fresh"),
+           c17_job(4, "nearly_full"), c17_job(3, "nearly_full"), c17_job(2, "full_chunk"),
+           c17_job(3, "fresh", witness=True, quick=True)],
+    thorough=[c17_job(c, "fresh") for c in range(5)] + [c17_job(c, "nearly_full") for c in (0, 3, 4)]
+    + [c17_job(c, "full_chunk") for c in (2, 4)] + [c17_job(3, "fresh", witness=True, quick=True)],
+    bounds_quick="ByteArena::read_n: count in {0,1,3,4} (concrete per job), every reader script of <= 4 actions, max_attempts 1..4, arena pre-state in {no cache, 3 bytes left in an 8-byte chunk, chunk exactly full}",
+    bounds_thorough="count 0..4, same scripts, all three arena pre-states",
+    outside=["scripts longer than 4 actions, counts above 4, production chunk sizes (4 KiB..1 MiB; hook H2 shrinks them to 8 bytes)",
+             "count is concrete per job (a symbolic count makes the chunk allocation size symbolic, which exhausted 12 GB)",
+             "error payloads: errors are io::Error::from(ErrorKind) (no heap payload)"],
+    assumptions=["hook H2: arena chunk size 8 bytes (constant sequence) through --cfg woodpile_verif_arena"],
 ))
